@@ -181,6 +181,7 @@ func (d *Deque[T]) Set(i int, t T) {
 	}
 	idx := (d.front + i) % len(d.a)
 	d.a[idx] = t
+	d.gen++
 }
 
 func positiveMod(l, d int) int {
